@@ -1,4 +1,6 @@
-use crate::nodes::{Block, DoStatement, Expression, IfExpression, IfStatement, Statement};
+use crate::nodes::{
+    Block, DoStatement, Expression, IfExpression, IfExpressionTokens, IfStatement, Statement,
+};
 use crate::process::{DefaultVisitor, Evaluator, NodeProcessor, NodeVisitor};
 use crate::rules::{
     Context, FlawlessRule, RuleConfiguration, RuleConfigurationError, RuleMetadata, RuleProperties,
@@ -28,8 +30,13 @@ impl IfFilter {
         let mut keep_next_branches = true;
         let mut replace_else_with = None;
 
+        let mut branch_index = 0;
+        let mut first_branch_removed = false;
+
         let is_empty = if_statement.retain_branches_mut(|branch| {
-            keep_next_branches && {
+            let index = branch_index;
+            branch_index += 1;
+            let keep = keep_next_branches && {
                 let branch_condition_value = self.evaluator.evaluate(branch.get_condition());
                 match branch_condition_value.is_truthy() {
                     Some(true) => {
@@ -38,7 +45,14 @@ impl IfFilter {
                         if self.evaluator.has_side_effects(branch.get_condition()) {
                             true
                         } else {
-                            replace_else_with = Some(branch.take_block());
+                            // the branch becomes the `else` branch: its `elseif` keyword (with
+                            // its position) becomes the `else` keyword
+                            let else_token = branch.get_tokens().map(|tokens| {
+                                let mut token = tokens.elseif.clone();
+                                token.replace_with_content("else");
+                                token
+                            });
+                            replace_else_with = Some((branch.take_block(), else_token));
                             false
                         }
                     }
@@ -52,11 +66,15 @@ impl IfFilter {
                     }
                     None => true,
                 }
+            };
+            if index == 0 && !keep {
+                first_branch_removed = true;
             }
+            keep
         });
 
         if is_empty {
-            if let Some(block_replacer) = replace_else_with {
+            if let Some((block_replacer, _)) = replace_else_with {
                 if block_replacer.is_empty() {
                     FilterResult::Remove
                 } else {
@@ -72,9 +90,34 @@ impl IfFilter {
                 FilterResult::Remove
             }
         } else {
+            if first_branch_removed {
+                // an `elseif` branch is now the first one: its keywords (with their positions)
+                // become the statement's `if` and `then`
+                let branch_tokens = if_statement
+                    .get_branches()
+                    .first()
+                    .and_then(|branch| branch.get_tokens())
+                    .cloned();
+                if let (Some(tokens), Some(branch_tokens)) =
+                    (if_statement.mutate_tokens(), branch_tokens)
+                {
+                    let mut if_token = branch_tokens.elseif;
+                    if_token.replace_with_content("if");
+                    for (index, trivia) in tokens.r#if.iter_leading_trivia().enumerate() {
+                        if_token.insert_leading_trivia(index, trivia.clone());
+                    }
+                    tokens.r#if = if_token;
+                    tokens.then = branch_tokens.then;
+                }
+            }
             if !keep_next_branches {
-                if let Some(block_replacer) = replace_else_with {
+                if let Some((block_replacer, else_token)) = replace_else_with {
                     if_statement.set_else_block(block_replacer);
+                    if let (Some(tokens), Some(else_token)) =
+                        (if_statement.mutate_tokens(), else_token)
+                    {
+                        tokens.r#else = Some(else_token);
+                    }
                 } else {
                     if_statement.take_else_block();
                 }
@@ -112,6 +155,23 @@ impl IfFilter {
                     *if_expression.mutate_result() = Self::result_placeholder();
                     None
                 } else if let Some(branch) = if_expression.remove_branch(0) {
+                    // the `elseif` branch becomes the first one: its keywords (with their
+                    // positions) become the expression's `if` and `then`
+                    if let (Some(tokens), Some(branch_tokens)) = (
+                        if_expression.get_tokens().cloned(),
+                        branch.get_tokens().cloned(),
+                    ) {
+                        let mut if_token = branch_tokens.elseif;
+                        if_token.replace_with_content("if");
+                        for (index, trivia) in tokens.r#if.iter_leading_trivia().enumerate() {
+                            if_token.insert_leading_trivia(index, trivia.clone());
+                        }
+                        if_expression.set_tokens(IfExpressionTokens {
+                            r#if: if_token,
+                            then: branch_tokens.then,
+                            r#else: tokens.r#else,
+                        });
+                    }
                     let (new_condition, new_result) = branch.into_expressions();
                     *if_expression.mutate_condition() = new_condition;
                     *if_expression.mutate_result() = new_result;
@@ -141,7 +201,13 @@ impl IfFilter {
                                 if self.evaluator.has_side_effects(branch.get_condition()) {
                                     true
                                 } else {
-                                    replace_else_with = Some(branch.get_result().clone());
+                                    let else_token = branch.get_tokens().map(|tokens| {
+                                        let mut token = tokens.elseif.clone();
+                                        token.replace_with_content("else");
+                                        token
+                                    });
+                                    replace_else_with =
+                                        Some((branch.get_result().clone(), else_token));
                                     false
                                 }
                             }
@@ -159,8 +225,19 @@ impl IfFilter {
                 });
 
                 if !keep_next_branches {
-                    *if_expression.mutate_else_result() =
-                        replace_else_with.unwrap_or_else(Self::result_placeholder);
+                    if let Some((result, else_token)) = replace_else_with {
+                        *if_expression.mutate_else_result() = result;
+                        if let (Some(tokens), Some(else_token)) =
+                            (if_expression.get_tokens().cloned(), else_token)
+                        {
+                            if_expression.set_tokens(IfExpressionTokens {
+                                r#else: else_token,
+                                ..tokens
+                            });
+                        }
+                    } else {
+                        *if_expression.mutate_else_result() = Self::result_placeholder();
+                    }
                 }
                 None
             }
